@@ -213,11 +213,29 @@ def g_dfs(ck: Check, rule: str) -> None:
                 and text(n.targets[0] if isinstance(n, ast.Assign) else n.target) == L]
         probs = []
 
+        def src_of(d):
+            e = unwrap_order(d.value)
+            if isinstance(e, ast.Name) and e.id != L:
+                e = unwrap_order(fm.deref(e, fm.cfgn(d)))      # through a plain local (left behind by an inlined helper)
+            return e if isinstance(e, ast.Call) and callee_name(e) == "node_successors" else None
+
         def is_src(e):
-            e = unwrap_order(e)
-            return isinstance(e, ast.Call) and callee_name(e) == "node_successors"
-        srcs = [d for d in defs if is_src(d.value)]
-        sc = unwrap_order(srcs[0].value) if srcs else None
+            return any(d.value is e and src_of(d) is not None for d in defs)
+        # a definition that no use of the list can see (a failure marker right before leaving) does not count
+        loads = [x for x in ast.walk(loop) if isinstance(x, ast.Name) and x.id == L and isinstance(x.ctx, ast.Load)]
+
+        def dead(d) -> bool:
+            dn = fm.cfgn(d)
+            for x in loads:
+                try:
+                    if dn in fm.cfg.reaching_defs(L, fm.cfgn(x)):
+                        return False
+                except AnalysisError:
+                    return False
+            return True
+        defs = [d for d in defs if not (is_none(d.value) and dead(d))]
+        srcs = [d for d in defs if src_of(d) is not None]
+        sc = src_of(srcs[0]) if srcs else None
         if len(srcs) != 1 or text(sc.args[0]) != cur or not is_true(call_arg(sc, 1, "compute")):
             probs.append("the successor list is not node_successors(current node, compute=True)")
         for d in defs:
@@ -229,6 +247,7 @@ def g_dfs(ck: Check, rule: str) -> None:
         ck.ob(rule, fm, loop, not probs, "; ".join(probs) if probs else "frame list = all successors of the current node",
               key="successor list")
         seen = _seen_name(fm, loop)
+        _seen_init(ck, rule, fm, loop, seen)
         # every pop of L
         for n in ast.walk(loop):
             if not (isinstance(n, ast.Call) and isinstance(n.func, ast.Attribute) and n.func.attr == "pop"
@@ -271,6 +290,45 @@ def g_dfs(ck: Check, rule: str) -> None:
         for n in ast.walk(loop):
             if isinstance(n, ast.Break) and fm.cfg.enclosing_loops(fm.cfgn(n))[0] is loop:
                 ck.ob(rule, fm, n, False, "`break` leaves unprocessed frames on the stack")
+
+
+def _seen_init(ck: Check, rule: str, fm: FuncModel, loop, seen: str | None) -> None:
+    """'seen' must mean 'visited by this run': the set starts empty or with the start node only. Seeding it with other
+    nodes (all expanded nodes, say) makes the search stop above stubs that an earlier, interrupted call left behind."""
+    if not seen:
+        return
+    f = fm.f
+    hdr = fm.cfg.loop_header[loop]
+    outer = [l for l in fm.cfg.enclosing_loops(hdr)]
+    top = outer[-1] if outer else loop
+    probs = []
+    starts = set(f.params()) | {"root"}
+    def start_like(e) -> bool:
+        e = fm.deref(e, fm.cfg.loop_header[top]) if isinstance(e, ast.Name) else e
+        t = text(e)
+        return (isinstance(e, ast.Name) and (e.id in starts or True)) or t.endswith(".root()")
+    for d in fm.cfg.reaching_defs(seen, fm.cfg.loop_header[top]):
+        v = d.ast.value if d.kind == "stmt" and isinstance(d.ast, (ast.Assign, ast.AnnAssign)) else None
+        if v is None:
+            probs.append(f"`{seen}` is not a local set of this run")
+            continue
+        inner = v.args[0] if isinstance(v, ast.Call) and callee_name(v) in ("set", "frozenset") and len(v.args) == 1 else None
+        ok = (isinstance(v, ast.Call) and callee_name(v) == "set" and not v.args) \
+            or (isinstance(v, ast.Set) and len(v.elts) == 1 and isinstance(v.elts[0], (ast.Name, ast.Call))) \
+            or (isinstance(inner, (ast.List, ast.Tuple, ast.Set)) and len(inner.elts) <= 1)
+        if not ok:
+            probs.append(f"line {d.lineno}: the seen set starts as `{text(v)[:50]}`: nodes that this run never visited count as "
+                         f"seen, so the search does not descend below them (stubs left by an earlier call stay unexpanded "
+                         f"although the driver reports completion)")
+    # bulk insertions before the loop
+    for c in own_walk(f.node):
+        if isinstance(c, ast.Call) and isinstance(c.func, ast.Attribute) and text(c.func.value) == seen \
+                and c.func.attr in ("update", "union", "__ior__") and fm.cfgn(c).id not in fm.cfg.loop_nodes[top]:
+            probs.append(f"line {c.lineno}: `{text(c)[:50]}` puts nodes into the seen set that this run never visited")
+        if isinstance(c, ast.AugAssign) and text(c.target) == seen and fm.cfgn(c).id not in fm.cfg.loop_nodes[top]:
+            probs.append(f"line {c.lineno}: `{text(c)[:50]}` puts nodes into the seen set that this run never visited")
+    ck.ob(rule, fm, loop, not probs, "; ".join(sorted(set(probs))) if probs else
+          f"the seen set `{seen}` starts with the start node only", key="seen set of this run")
 
 
 def _seen_name(fm: FuncModel, loop) -> str | None:
@@ -632,6 +690,7 @@ def g_level(ck: Check, rule: str) -> None:
             il = inner[0]
             sname = text(il.target)
             seen = _seen_name(fm, il)
+            _seen_init(ck, rule, fm, il, seen)
             pushes = schedule_nodes(fm, il, sname, {seen} if seen else set())
             if not pushes:
                 probs.append("successors are not pushed to the next level")
